@@ -143,8 +143,24 @@ pub fn render(toks: &[Value], kwcase: u32, sep: u32, sp: u32) -> String {
     let mut out = String::new();
     if sep == 4 { out.push_str("# en-tête: bibliothèque 単位 ✓\n"); }
     for (i, t) in toks.iter().enumerate() {
-        let k = t["k"].as_str().unwrap();
+        let mut k = t["k"].as_str().unwrap();
+        let mut marked: Option<(String, bool)> = None;   // (text, needs trailing comment)
+        if k == "mark" {
+            // a token with a non-ASCII character inserted: into the word / literal itself, or into a comment behind it
+            let ch = ["é", "中", "😀"][(t["ch"].as_u64().unwrap() as usize - 1) % 3];
+            let inner = &t["v"];
+            let ik = inner["k"].as_str().unwrap();
+            let base = render(std::slice::from_ref(inner), kwcase, 0, sp);
+            let base = base.trim_end().to_string();
+            marked = Some(match ik {
+                "id" | "raw" => { let mid = base.chars().count() / 2; let (a, b): (String, String) = (base.chars().take(mid.max(1)).collect(), base.chars().skip(mid.max(1)).collect()); (format!("{a}{ch}{b}"), false) }
+                "str" => { let n = base.chars().count(); (format!("{}{}\"", base.chars().take(n - 1).collect::<String>(), ch), false) }
+                _ => (format!("{base} # {ch} note"), true),
+            });
+            k = "marked";
+        }
         let txt = match k {
+            "marked" => { let (t2, cm) = marked.clone().unwrap(); if cm { format!("{t2}\n") } else { t2 } }
             "kw" => kw_text(t["v"].as_str().unwrap(), kwcase),
             "kwu" | "id" | "str" | "raw" => t["v"].as_str().unwrap().to_string(),
             "num" => dec_text(&t["d"], (sp + if sp == 0 { 0 } else { (i % 2) as u32 * 0 }) % N_SP),
